@@ -3,6 +3,7 @@ package main
 import (
 	"fmt"
 	"go/token"
+	"go/types"
 	"sort"
 	"strings"
 
@@ -927,4 +928,219 @@ func ruleBlockBytesPerVoxel(r *Run) {
 		}
 	}
 	r.check(n >= 3, "imageblk:block-sized-buffers", fmt.Sprintf("%d", n), "fewer than confirmed by reading: rule needs review", "-")
+}
+
+// ---------------------------------------------------------------------------------------------
+// C02 / C19 round e.
+
+func init() {
+	register(ruleDef{ID: "R2.18", Prop: "C02", Tier: "quick", Floor: 4,
+		Title: "(shared with R3.5) what a committed version maps is what its log replays: every change of the in-memory supervoxel mapping is written to the mutation log exactly once",
+		Fn:    ruleR3_5})
+	register(ruleDef{ID: "R2.19", Prop: "C02", Tier: "quick", Floor: 3,
+		Title: "(shared with R13.15) a sync consumer writes at the version of the message it handles: the versioned context is built from the message just received, never kept from an earlier one (which may belong to a version committed since)",
+		Fn:    ruleSyncCtxPerMessage})
+	reg := func(id, prop string) {
+		register(ruleDef{ID: id, Prop: prop, Tier: "quick", Floor: 2,
+			Title: "an in-memory cache key names its version: every Bytes method of a key struct in labelmap reads each field of the struct (instance, version, label), so entries of different versions never share a key",
+			Fn:    ruleCacheKeyUsesEveryField})
+	}
+	reg("R2.20", "C02")
+	reg("R6.17", "C06")
+	register(ruleDef{ID: "R19.8", Prop: "C19", Tier: "quick", Floor: 2,
+		Title: "a store transfer with metadata still transfers the data: in TransferData only the lower bound of the metadata key range is used; the upper bound of the transfer stays the bound of the data keys",
+		Fn:    ruleTransferRangeKeepsData})
+}
+
+func ruleCacheKeyUsesEveryField(r *Run) {
+	w := r.W
+	n := 0
+	for _, f := range w.RepoFuncs {
+		if relPkg(pkgPathOf(f)) != "datatype/labelmap" || len(f.Blocks) == 0 || f.Name() != "Bytes" || f.Signature.Recv() == nil || strings.HasSuffix(w.fposFile(f), "_test.go") {
+			continue
+		}
+		st, ok := f.Signature.Recv().Type().Underlying().(*types.Struct)
+		if !ok {
+			if pt, isPtr := f.Signature.Recv().Type().Underlying().(*types.Pointer); isPtr {
+				st, ok = pt.Elem().Underlying().(*types.Struct)
+			}
+		}
+		if !ok || st.NumFields() < 2 {
+			continue
+		}
+		read := map[int]bool{}
+		for _, b := range f.Blocks {
+			for _, in := range b.Instrs {
+				switch x := in.(type) {
+				case *ssa.Field:
+					if x.X == ssa.Value(f.Params[0]) {
+						read[x.Field] = true
+					}
+				case *ssa.FieldAddr:
+					if x.X == ssa.Value(f.Params[0]) || dataDeps(x.X)[f.Params[0]] {
+						read[x.Field] = true
+					}
+				}
+			}
+		}
+		for i := 0; i < st.NumFields(); i++ {
+			n++
+			r.check(read[i], fmt.Sprintf("%s:field:%s", fname(f), st.Field(i).Name()), "the field is part of the key bytes",
+				"the key bytes are built without the field "+st.Field(i).Name()+": entries that differ only in it share one cache key, so a read at a committed version is answered with another version's cached value", w.fpos(f))
+		}
+	}
+	r.check(n >= 3, "labelmap:key-struct-fields", fmt.Sprintf("%d", n), "fewer than confirmed by reading: rule needs review", "-")
+}
+
+func ruleTransferRangeKeepsData(r *Run) {
+	w := r.W
+	f := w.fn("datastore", "TransferData")
+	if f == nil {
+		r.undecided("datastore.TransferData", "anchor not found")
+		return
+	}
+	n := 0
+	for _, c := range calls(f) {
+		cv, ok := c.(*ssa.Call)
+		if !ok || methodNameOf(c) != "KeyRange" {
+			continue
+		}
+		recv := ""
+		if len(cv.Call.Args) > 0 {
+			recv = cv.Call.Args[0].Type().String()
+		}
+		if !strings.Contains(recv, "MetadataContext") {
+			continue
+		}
+		n++
+		upperUsed := false
+		for _, ref := range *cv.Referrers() {
+			if ex, ok := ref.(*ssa.Extract); ok && ex.Index == 1 && ex.Referrers() != nil {
+				for _, r2 := range *ex.Referrers() {
+					if _, isDbg := r2.(*ssa.DebugRef); !isDbg {
+						upperUsed = true
+					}
+				}
+			}
+		}
+		r.check(!upperUsed, "TransferData:metadata-range:upper-bound-unused", "only the lower bound of the metadata key range is taken",
+			"with \"Metadata\": true the transfer range ends at the end of the metadata keys: the metadata is copied and no key-value of any data instance, while TransferData reports success", w.pos(cv.Pos()))
+	}
+	r.check(n >= 1, "TransferData:metadata-range", fmt.Sprintf("%d", n), "the metadata key range call was not found: rule needs review", w.fpos(f))
+}
+
+func init() {
+	register(ruleDef{ID: "R2.21", Prop: "C02", Tier: "quick", Floor: 3,
+		Title: "creating a child changes nothing of the committed parent but its list of children: in newVersion and merge, a store into a field of a node that was looked up in the DAG (not the node just created by newNode) goes to `children` or `updated` only",
+		Fn:    ruleChildCreationLeavesParent})
+}
+
+func ruleChildCreationLeavesParent(r *Run) {
+	w := r.W
+	n := 0
+	for _, name := range []string{"newVersion", "merge"} {
+		f := w.method("datastore", "repoManager", name)
+		if f == nil {
+			r.undecided("datastore.repoManager."+name, "anchor not found")
+			continue
+		}
+		k := 0
+		for _, b := range f.Blocks {
+			for _, in := range b.Instrs {
+				st, ok := in.(*ssa.Store)
+				if !ok {
+					continue
+				}
+				fa, ok := st.Addr.(*ssa.FieldAddr)
+				if !ok || !strings.HasSuffix(fa.X.Type().String(), "datastore.nodeT") {
+					continue
+				}
+				// the fresh child comes from newNode; anything else was looked up
+				fresh := false
+				for _, rt := range roots(fa.X, f) {
+					v := rt.V
+					if ex, isEx := v.(*ssa.Extract); isEx {
+						v = ex.Tuple
+					}
+					if c, isCall := v.(*ssa.Call); isCall {
+						if callee := c.Call.StaticCallee(); callee != nil && callee.Name() == "newNode" {
+							fresh = true
+						}
+					}
+				}
+				if fresh {
+					continue
+				}
+				field, _, _ := fieldName(fa)
+				k++
+				n++
+				r.check(field == "children" || field == "updated", fmt.Sprintf("%s:parent-store#%d:%s", name, k, field), "only the children list and the update time of the parent are written",
+					"creating a child writes the field "+field+" of the committed parent node: the note (log, branch, lock state …) of a committed version changes although committed versions are immutable", w.pos(st.Pos()))
+			}
+		}
+	}
+	r.check(n >= 3, "datastore:parent-stores-in-child-creation", fmt.Sprintf("%d", n), "fewer than confirmed by reading: rule needs review", "-")
+}
+
+func init() {
+	register(ruleDef{ID: "R19.9", Prop: "C19", Tier: "quick", Floor: 2,
+		Title: "a deletion is not a repeat of an empty value: wherever the copy code decides that a version repeats the previous one by comparing the value bytes of two key-values, the same decision also compares whether their keys are tombstones",
+		Fn:    ruleRepeatTestSeesTombstones})
+}
+
+func ruleRepeatTestSeesTombstones(r *Run) {
+	w := r.W
+	n := 0
+	for _, f := range w.RepoFuncs {
+		if relPkg(pkgPathOf(f)) != "datastore" || len(f.Blocks) == 0 || !strings.HasSuffix(w.fposFile(f), "copy_local.go") {
+			continue
+		}
+		isValueOfKV := func(v ssa.Value) bool {
+			ld, ok := stripConv(v).(*ssa.UnOp)
+			if !ok || ld.Op != token.MUL {
+				return false
+			}
+			fa, ok := ld.X.(*ssa.FieldAddr)
+			if !ok {
+				return false
+			}
+			name, _, _ := fieldName(fa)
+			return name == "V" && strings.Contains(fa.X.Type().String(), "storage.KeyValue")
+		}
+		for _, c := range calls(f) {
+			callee := staticCallee(c)
+			if callee == nil || callee.Pkg == nil || callee.Pkg.Pkg.Path() != "bytes" || (callee.Name() != "Compare" && callee.Name() != "Equal") {
+				continue
+			}
+			args := c.Common().Args
+			if len(args) != 2 || !isValueOfKV(args[0]) || !isValueOfKV(args[1]) {
+				continue
+			}
+			n++
+			// a comparison of two IsTombstone results in the same function
+			both := false
+			for _, b := range f.Blocks {
+				for _, in := range b.Instrs {
+					bo, ok := in.(*ssa.BinOp)
+					if !ok || (bo.Op != token.NEQ && bo.Op != token.EQL) {
+						continue
+					}
+					isT := func(v ssa.Value) bool {
+						cc, ok := v.(*ssa.Call)
+						if !ok {
+							return false
+						}
+						cal := cc.Call.StaticCallee()
+						return cal != nil && cal.Name() == "IsTombstone"
+					}
+					if isT(bo.X) && isT(bo.Y) {
+						both = true
+					}
+				}
+			}
+			r.check(both, fname(f)+":repeat-test:tombstone-compared", "the repeat test also compares the tombstone state of the two keys",
+				"two versions of a key count as a repeat when their value bytes are equal, without a look at whether one of them is a deletion: a tombstone (empty value) after a stored empty value is dropped, and the copy keeps data that the source deleted", w.pos(c.Pos()))
+		}
+	}
+	r.check(n >= 1, "copy:value-repeat-tests", fmt.Sprintf("%d", n), "none found: rule needs review", "-")
 }
